@@ -212,10 +212,19 @@ theorem guarded_pure (early : List Callee) (evs : List Event) (h : AllGuardedByN
 def auditedDryRunReads : List (SrcFile × Nat) :=
   [(.backup, 1), (.finalize, 4), (.migrate, 3), (.opts, 1), (.stream, 1)]
 
-/-- iteration over a HashMap/HashSet exists only in analysis.rs (report tables, sorted afterwards)
-    and sanity.rs (conflict lists of the pre-flight messages) — nowhere in stream/commit/tag/
-    filechange/finalize/message -/
-def auditedHashIter : List (SrcFile × Nat) := [(.analysis, 3), (.sanity, 5)]
+/-- every iteration over a HashMap/HashSet (bindings typed as such, results of functions returning one —
+    `get_all_refs`, `get_replace_refs` —, and struct fields of such a type), audited site by site:
+    * analysis.rs ×5 — report tables of `--analyze` (top-N is order-insensitive: C19.topN_spec);
+    * finalize.rs ×2 — `keys().filter(..).collect()` followed by `sort()` and `next()`: the least matching
+      name (`minName`, order-insensitive: `minName_perm`); everything else is `contains_key`;
+    * migrate.rs ×1 — builds one `update-ref --stdin` transaction whose create/delete targets are pairwise
+      distinct: a set, applied atomically;
+    * sanity.rs ×6 — conflict lists of the pre-flight messages (accept/refuse does not depend on the order).
+    None in stream.rs, commit.rs, tag.rs, filechange.rs, message.rs, pathutil.rs, pipes.rs, limits.rs. -/
+def auditedHashIter : List (SrcFile × Nat) := [(.analysis, 5), (.finalize, 2), (.migrate, 1), (.sanity, 6)]
+
+/-- the modules that produce the filtered stream, the maps and the ref updates -/
+def filterPath : List SrcFile := [.stream, .commit, .tag, .filechange, .message, .pathutil, .pipes, .limits, .opts, .lib, .gitConfig]
 
 /-- clock reads: analysis progress, backup file name, sanity (already-ran age, timeouts), stream
     (temp-file name, report metadata) -/
@@ -229,6 +238,12 @@ def bothPiped (cs : List GitCmd) : List (SrcFile × GitSub × Bool) :=
 
 def auditedBothPiped : List (SrcFile × GitSub × Bool) :=
   [(.detect, .catFile, true), (.detect, .catFile, true), (.pipes, .fastImport, false), (.stream, .catFile, false)]
+
+/-- `break` statements inside functions that read a child's piped stdout, audited: detect.rs
+    scan_blob_candidates ×1 (`read_line == 0`: EOF), finalize.rs finalize ×2 (EOF of the filtered stream file; end of
+    a digit run), stream.rs prefetch_oversize ×1 (EOF). None leaves a reader loop while the child may still write
+    (the shape of finding F7). -/
+def auditedReaderBreaks : List (SrcFile × Nat) := [(.detect, 1), (.finalize, 2), (.stream, 1)]
 
 def readOnlyIn (f : SrcFile) (cs : List GitCmd) : Bool :=
   (cs.filter fun c => c.file == f).all fun c => !c.mutates
